@@ -32,7 +32,8 @@ type CrashSpec struct {
 		Point  string `json:"point,omitempty"`  // or at the n-th hit of a named point
 		N      int    `json:"n,omitempty"`
 	} `json:"kill"`
-	Kind string `json:"kind"` // store | dsm | ...
+	Kind  string          `json:"kind"` // store | dsm | ns | job ...
+	Extra json.RawMessage `json:"extra,omitempty"`
 }
 
 type CrashCount struct {
@@ -127,21 +128,52 @@ func (h *VHist) ModelApply(op VOp) {
 	}
 }
 
+// CrashKind lets harnesses of other packages plug their own child setup into the crash engine.
+type CrashKind struct {
+	// Setup opens the system under test in dir and performs the uncounted setup; it returns
+	// the function that applies one history op (returning extra acknowledgement data) and a clean shutdown.
+	Setup func(dir string, spec CrashSpec) (apply func(op VOp) (string, error), shutdown func(), err error)
+}
+
+var VCrashKinds = map[string]CrashKind{}
+
+func init() {
+	storeKind := CrashKind{Setup: func(dir string, spec CrashSpec) (func(op VOp) (string, error), func(), error) {
+		w := VOpenWorld(dir)
+		h := w.NewHist()
+		for _, n := range spec.Datasets {
+			if _, err := w.Dsm.CreateDataset(h.DsName(n), nil); err != nil {
+				return nil, nil, err
+			}
+		}
+		for _, op := range spec.Pre {
+			if err := h.vApplyImpl(op); err != nil {
+				return nil, nil, err
+			}
+		}
+		apply := func(op VOp) (string, error) {
+			hh := &VHist{W: w, Tag: h.Tag, M: h.M} // the world may have been restarted
+			err := hh.vApplyImpl(op)
+			return hh.LastAck, err
+		}
+		return apply, func() { w.Close() }, nil
+	}}
+	for _, k := range []string{"", "store", "dsm", "ns"} {
+		VCrashKinds[k] = storeKind
+	}
+}
+
 // vCrashChild runs in its own process: setup, install kill hook, run history.
 func vCrashChild(dir string, spec CrashSpec) {
-	w := VOpenWorld(dir)
-	h := w.NewHist()
-	for _, n := range spec.Datasets {
-		if _, err := w.Dsm.CreateDataset(h.DsName(n), nil); err != nil {
-			fmt.Fprintln(os.Stderr, "crash-child setup:", err)
-			os.Exit(3)
-		}
+	kind, ok := VCrashKinds[spec.Kind]
+	if !ok {
+		fmt.Fprintln(os.Stderr, "crash-child: unknown kind", spec.Kind)
+		os.Exit(3)
 	}
-	for _, op := range spec.Pre {
-		if err := h.vApplyImpl(op); err != nil {
-			fmt.Fprintln(os.Stderr, "crash-child pre:", err)
-			os.Exit(3)
-		}
+	apply, shutdown, err := kind.Setup(dir, spec)
+	if err != nil {
+		fmt.Fprintln(os.Stderr, "crash-child setup:", err)
+		os.Exit(3)
 	}
 	cnt := CrashCount{Points: map[string]int{}}
 	badger.VerifHook = func(ev int) {
@@ -163,13 +195,12 @@ func vCrashChild(dir string, spec CrashSpec) {
 		os.Exit(3)
 	}
 	for i, op := range spec.Hist {
-		h = &VHist{W: w, Tag: h.Tag, M: h.M} // world may have been restarted
-		h.LastAck = ""
-		if err := h.vApplyImpl(op); err != nil {
+		extra, err := apply(op)
+		if err != nil {
 			fmt.Fprintf(acks, "err %d %s\n", i, strings.ReplaceAll(err.Error(), "\n", " "))
 			continue
 		}
-		fmt.Fprintf(acks, "ack %d %s\n", i, h.LastAck)
+		fmt.Fprintf(acks, "ack %d %s\n", i, extra)
 		cnt.Acks++
 	}
 	if spec.Kill.Commit == cnt.Commits+1 {
@@ -179,7 +210,7 @@ func vCrashChild(dir string, spec CrashSpec) {
 	verifhook.Handler = nil
 	b, _ := json.Marshal(cnt)
 	_ = os.WriteFile(filepath.Join(dir, "count.json"), b, 0o644)
-	w.Close()
+	shutdown()
 	os.Exit(0)
 }
 
@@ -198,6 +229,16 @@ type CrashResult struct {
 
 // vRunCrashTask: spawn the child, wait for it, reopen the store and judge.
 func vRunCrashTask(spec CrashSpec, inspect func(w *VWorld, h *VHist, spec CrashSpec, acked int, res *CrashResult)) (res CrashResult) {
+	return VRunCrashTaskDir(spec, func(dir string, res *CrashResult) {
+		w := VOpenWorld(dir)
+		defer w.Close()
+		h := w.NewHist()
+		inspect(w, h, spec, res.Acked, res)
+	})
+}
+
+// VRunCrashTaskDir: spawn the child, wait for its death, then let recoverFn reopen the directory and judge.
+func VRunCrashTaskDir(spec CrashSpec, recoverFn func(dir string, res *CrashResult)) (res CrashResult) {
 	dir := VNewScratchDir("crash")
 	defer os.RemoveAll(dir)
 	exe, _ := os.Executable()
@@ -257,10 +298,7 @@ func vRunCrashTask(spec CrashSpec, inspect func(w *VWorld, h *VHist, spec CrashS
 				res.Viol = append(res.Viol, engine.Violation{Key: "C04:reopen-panic", What: fmt.Sprintf("reopening the store after the kill panicked: %v", r)})
 			}
 		}()
-		w := VOpenWorld(dir)
-		defer w.Close()
-		h := w.NewHist()
-		inspect(w, h, spec, res.Acked, &res)
+		recoverFn(dir, &res)
 	}()
 	return
 }
@@ -400,6 +438,9 @@ func vInspectStore(w *VWorld, h *VHist, spec CrashSpec, acked int, res *CrashRes
 		res.Viol = append(res.Viol, engine.Violation{Key: "C04:index-suffix|" + msg + "|" + histDesc + "|" + killDesc, What: "after recovery and two more writes: " + msg})
 	}
 }
+
+// VOpsString renders ops for messages.
+func VOpsString(ops []VOp) string { return vOpsString(ops) }
 
 func vOpsString(ops []VOp) string {
 	var l []string
